@@ -65,12 +65,44 @@ def witness_phase(ctx):
     base.oracle14(ctx, case, out, 1)
 
 
+def two_sleepers_phase(ctx):
+    """two waiters asleep on the condition while a third thread holds the receive lock and receives the reply of the one that went to
+    sleep LAST: whoever receives must wake every sleeper (the condition stands for 'something was received, look again' as well as for
+    'the lock is free'). Three client threads: R = client 2 issues, takes the lock and waits in poll; W0 then W1 issue their requests
+    and go to sleep; the peer answers W1 first; R reads, releases, notifies and dispatches before any waiter runs (so the known window
+    F5 is not entered). W1 must return with no lateness."""
+    ev = []
+    has = lambda pred: (lambda events, en: any(pred(e) for e in events))
+    phases = [(2, lambda events, en: any(e[0] == "step" and e[1] == 2 and e[2] == "acquire" and e[3] for e in events) and 2 not in en),   # R holds the lock and waits in poll
+              (0, lambda events, en: any(e[0] == "issue" and e[1] == 0 for e in events) and 0 not in en),
+              (1, lambda events, en: any(e[0] == "issue" and e[1] == 1 for e in events) and 1 not in en),
+              ("P", has(lambda e: e[0] == "answer")),
+              (2, has(lambda e: e[0] == "step" and e[1] == 2 and e[2] == "dispatch"))]
+    # the other two replies come half a (virtual) second later: a waiter left asleep has to sit that time out
+    out = base.scenario(3, False, [1, 0, 2], scripted_chooser(ev, phases), events_out=ev, answer_delay={0: 0.5, 2: 0.5})
+    case = {"witness": "two_sleepers", "clients": 3, "bg": False, "order": [1, 0, 2], "seed": 0, "stick": 0.0}
+    ctx.case(("witness", "two_sleepers"), nontrivial=True, sample={"case": case, "late": out["late"], "results": out["results"]})
+    ctx.count("witness-two-sleepers")
+    kinds = [tuple(e[1:4]) for e in ev if e[0] == "step"]
+    # the schedule was really followed: both waiters failed to get the lock (and went to sleep) before R read anything
+    first_read = next((k for k, e in enumerate(kinds) if e[0] == 2 and e[1] == "read"), len(kinds))
+    followed = all((w, "acquire", False) in kinds[:first_read] for w in (0, 1)) and first_read < len(kinds) and kinds[first_read][2] == out["seq_of"].get(1)
+    ctx.coverage_extra["two_sleepers_schedule_followed"] = followed
+    if not followed:
+        ctx.tie_broken("correspondence:two-sleepers-schedule", "the real code did not follow the two-sleepers schedule: steps %s" % kinds[:24])
+    base.oracle14(ctx, case, out, 3)
+
+
 def run(ctx):
     base.run_plans(ctx, "C14")
     witness_phase(ctx)
+    two_sleepers_phase(ctx)
 
 
 def replay(ctx, rep):
+    if rep["case"].get("witness") == "two_sleepers":
+        two_sleepers_phase(ctx)
+        return
     if rep["case"].get("witness"):
         witness_phase(ctx)
         return
